@@ -9,6 +9,7 @@ import Cnl2aspModel.Asp.PrintAtom
 import Cnl2aspModel.Compiler.Route
 import Cnl2aspModel.Compiler.Signatures
 import Cnl2aspModel.Compiler.Naming
+import Cnl2aspModel.Compiler.Temporal
 
 open Lean Cnl2aspModel
 
@@ -147,6 +148,83 @@ def c07namer (j : Json) : Json :=
   | none => Json.mkObj [("err", "fuel")]
   | some (n, c) => Json.mkObj [("ok", Json.str (chars n)), ("avoid", Json.arr (c.map fun x => Json.str (chars x)).toArray)]
 
+namespace C05
+open Temporal Tel
+
+instance : Inhabited Operand := ⟨.leaf (.ent .none 0)⟩
+instance : Inhabited TOp := ⟨.single ⟨false, none, .leaf (.ent .none 0), none⟩⟩
+
+def leadOf : String → Option Lead
+  | "always" => some .always | "eventually" => some .eventually | "before" => some .before
+  | "since before" => some .sinceBefore | "after" => some .after | "since after" => some .sinceAfter
+  | _ => none
+
+def pfxOf : String → Pfx
+  | "previously" => .previously | "subsequently" => .subsequently | "initially" => .initially | "finally" => .finally_
+  | _ => .none
+
+def leafOf (j : Json) : Leaf :=
+  match j.getObjValAs? String "const" with
+  | .ok ph => .const ph
+  | _ => .ent (pfxOf (jstr j "pfx")) (jnat j "ent")
+
+partial def operandOf (j : Json) : Operand :=
+  match j.getObjVal? "leaf" with
+  | .ok l => .leaf (leafOf l)
+  | _ => match j.getObjVal? "l", j.getObjVal? "r" with
+    | .ok l, .ok r => .dual (leafOf l) (jstr j "d") (operandOf r)
+    | _, _ => .leaf (.ent .none 0)
+
+def coreOf (j : Json) : Core :=
+  let hold : Option (Bool × Lead) := match j.getObjVal? "hold" with
+    | .ok (Json.arr #[Json.bool b, Json.str h]) => (leadOf h).map fun l => (b, l)
+    | _ => none
+  let operand := match j.getObjVal? "operand" with | .ok o => operandOf o | _ => .leaf (.ent .none 0)
+  ⟨jbool j "neg", (leadOf (jstr j "lead")), operand, hold⟩
+
+partial def topOf (j : Json) : TOp :=
+  let c := match j.getObjVal? "core" with | .ok c => coreOf c | _ => ⟨false, none, .leaf (.ent .none 0), none⟩
+  match j.getObjVal? "rest" with
+  | .ok (Json.obj r) => .chain c (jstr j "d") (topOf (Json.obj r))
+  | _ => .single c
+
+def sx : F → String
+  | .atom 0 => "a" | .atom 1 => "b" | .atom n => "x" ++ toString n
+  | .tt => "(& true)" | .ff => "(& false)" | .initial => "(& initial)" | .final => "(& final)"
+  | .neg f => "(~ " ++ sx f ++ ")"
+  | .and f g => "(& " ++ sx f ++ " " ++ sx g ++ ")" | .or f g => "(| " ++ sx f ++ " " ++ sx g ++ ")"
+  | .limp f g => "(<- " ++ sx f ++ " " ++ sx g ++ ")" | .rimp f g => "(-> " ++ sx f ++ " " ++ sx g ++ ")"
+  | .equiv f g => "(<> " ++ sx f ++ " " ++ sx g ++ ")"
+  | .prev f => "(< " ++ sx f ++ ")" | .wprev f => "(<: " ++ sx f ++ ")" | .next f => "(> " ++ sx f ++ ")" | .wnext f => "(>: " ++ sx f ++ ")"
+  | .alwaysP f => "(<* " ++ sx f ++ ")" | .eventuallyP f => "(<? " ++ sx f ++ ")"
+  | .alwaysF f => "(>* " ++ sx f ++ ")" | .eventuallyF f => "(>? " ++ sx f ++ ")"
+  | .initially f => "(<< " ++ sx f ++ ")" | .finally_ f => "(>> " ++ sx f ++ ")"
+  | .since f g => "(<? " ++ sx f ++ " " ++ sx g ++ ")" | .trigger f g => "(<* " ++ sx f ++ " " ++ sx g ++ ")"
+  | .until_ f g => "(>? " ++ sx f ++ " " ++ sx g ++ ")" | .release f g => "(>* " ++ sx f ++ " " ++ sx g ++ ")"
+  | .seqPrev f g => "(<; " ++ sx f ++ " " ++ sx g ++ ")" | .wseqPrev f g => "(<:; " ++ sx f ++ " " ++ sx g ++ ")"
+  | .seqNext f g => "(;> " ++ sx f ++ " " ++ sx g ++ ")" | .wseqNext f g => "(;>: " ++ sx f ++ " " ++ sx g ++ ")"
+
+def traceOf (j : Json) : Trace :=
+  match j.getObjVal? "trace" with
+  | .ok (Json.arr a) => a.toList.map fun st => match st with
+      | Json.arr xs => xs.toList.filterMap fun x => x.getNat?.toOption
+      | _ => []
+  | _ => []
+
+def run (j : Json) : Json :=
+  let t := match j.getObjVal? "top" with | .ok x => topOf x | _ => .single ⟨false, none, .leaf (.ent .none 0), none⟩
+  let σ := traceOf j
+  let comp := compileT t
+  let compJ := match comp with
+    | none => Json.null
+    | some (n, f) => Json.mkObj [("not", Json.bool n), ("tree", Json.str (sx f)),
+                                 ("fires", Json.arr ((List.range σ.length).map fun i => Json.bool (fires σ (n, f) i)).toArray)]
+  let holdsJ := match holds σ t with
+    | none => Json.null
+    | some p => Json.arr ((List.range σ.length).map fun i => Json.bool (p i)).toArray
+  Json.mkObj [("compiled", compJ), ("holds", holdsJ)]
+end C05
+
 open LineCol in
 def linecol (j : Json) : Json :=
   let s := (jstr j "s").toList
@@ -169,6 +247,7 @@ def dispatch (op : String) (j : Json) : Json :=
   | "c11.route" => Ops.c11route j
   | "c13.table" => Ops.c13table j
   | "c07.namer" => Ops.c07namer j
+  | "c05.run" => Ops.C05.run j
   | _ => Json.mkObj [("err", "bad-op")]
 
 partial def loop (h : IO.FS.Stream) (out : IO.FS.Stream) : IO Unit := do
